@@ -57,7 +57,7 @@ def check(rep, tier):
     rt_cov = dict(rep.coverage)
     cfg = cprops.CFG["C18"]
     listed = [e["id"] for e in C.known_findings("C18") if e["kind"] == "finding"]
-    ccheck.run(rep, "C18", cfg["feats"], 200 if tier == "quick" else 2000, [f for f in cfg["findings"] if f in listed],
+    ccheck.run(rep, "C18", cfg["feats"], 200 if tier == "quick" else 500, [f for f in cfg["findings"] if f in listed],
                cfg["rule"], corpus=cfg.get("corpus"))
     comp_cov = {k: v for k, v in rep.coverage.items() if rt_cov.get(k) != v}
     rep.coverage.update(rt_cov)
